@@ -269,7 +269,8 @@ Lemma source_facts :
   nonbool_is_type_error = true /\ check_failure_value = 0 /\
   check_notifies_on_change = true /\ set_notifies_on_change = true /\
   default_check_ttl = 30 /\ default_check_timeout = 10 /\
-  map snd serving_status_enum = [0; 1; 2; 3].
+  map snd serving_status_enum = [0; 1; 2; 3] /\
+  subscribe_starts_poll_when_none = true /\ poll_cleared_before_await = true.
 Proof. repeat split. Qed.
 
 Lemma registry_default_overall :
